@@ -195,7 +195,12 @@ def run_case(workload, closes, plan):
                 return False
             try:
                 if A._recvlock.locked():
-                    A._dispatch(A._channel.recv())
+                    data = A._channel.recv()
+                    A._recvlock.release()
+                    try:
+                        A._dispatch(data)
+                    finally:
+                        A._recvlock.acquire()
                 else:
                     A.serve(0)
                 return True
